@@ -4,10 +4,12 @@ with or without redeclared built-in types / DocumentAnnotation.
 
 Layers: `TsXmlRoundTripTopo` (dependency order exists), `…Inv` (history invariants), `…Trim` (the target type
 system), `…Run`, `…Load` (the loader succeeds under the simulation invariant), `…Decl` (faithful descriptors load),
-`…SameA/B` (record-by-record comparison, `SameXml`), `…Emit` (re-emission), `…Norm` (`normalize` on distinct names).
+`…SameA/B` (record-by-record comparison, `SameXml`), `…Emit` (re-emission), `…Norm` (`normalize` on distinct, unpadded
+names), `…Strip` (what the writer emits is unpadded under `StrippedNames`).
 -/
 import CassisModel.Proofs.TsXmlRoundTripEmit
 import CassisModel.Proofs.TsXmlRoundTripNorm
+import CassisModel.Proofs.TsXmlRoundTripStrip
 
 namespace Cassis.TsXml
 open Cassis.TS
@@ -55,6 +57,7 @@ theorem doc_rec {ts : TypeSystem} (hx : XHist ts) :
 
 theorem tsxml_roundtrip_core (ops : List TsOp) (h : UserOnlyNoDoc Gen.consts ops)
     (hns : NoShadow (ops.foldl (applyOp Gen.consts) Gen.builtinTS))
+    (hsn : StrippedNames Gen.consts (ops.foldl (applyOp Gen.consts) Gen.builtinTS))
     (d d' pre : Descriptor) (hd : toDescriptor Gen.consts (ops.foldl (applyOp Gen.consts) Gen.builtinTS) = .ok d)
     (hpre : ∀ e ∈ pre, (Gen.consts.predefined.contains e.name = true ∧
       (find? Gen.builtinTSNoDoc e.name).map renderType = some e) ∨ e = docEntry)
@@ -65,7 +68,7 @@ theorem tsxml_roundtrip_core (ops : List TsOp) (h : UserOnlyNoDoc Gen.consts ops
       toDescriptor Gen.consts ts' = .ok (preOut ++ d.map trimT) ∧
       preOut.map (·.name) = sortStrs (pre.map (·.name)).eraseDups ∧
       ∀ e ∈ preOut, (find? Gen.builtinTSNoDoc e.name).map renderType = some e ∨ e = docEntry := by
-  generalize hts : ops.foldl (applyOp Gen.consts) Gen.builtinTS = ts at hns hd ⊢
+  generalize hts : ops.foldl (applyOp Gen.consts) Gen.builtinTS = ts at hns hsn hd ⊢
   have hx : XHist ts := hts ▸ xhist_history ops _ xhist_builtin h
   have hc := hx.hist.cons
   have hdeq := toDescriptor_hist hx.red d hd
@@ -143,6 +146,15 @@ theorem tsxml_roundtrip_core (ops : List TsOp) (h : UserOnlyNoDoc Gen.consts ops
     obtain ⟨x, hx1, rfl⟩ := List.mem_map.mp ha
     obtain ⟨y, hy1, rfl⟩ := List.mem_map.mp hb
     exact hdisj x hx1 y hy1 e
+  -- no name of the descriptor carries surrounding whitespace: the reader's stripping changes descriptions only
+  have hd's : ∀ e ∈ d', NamesStrippedT e := by
+    intro e he
+    rcases List.mem_append.mp (hp.mem_iff.mp he) with hpe | hde
+    · rcases hpre_cases e hpe with ⟨_, pt, hpt, rfl⟩ | rfl
+      · exact base_stripped hpt
+      · exact docEntry_stripped
+    · obtain ⟨t, ht, rfl⟩ := (hdmem e).mp hde
+      exact rendered_user_stripped hc hx.ownOK hsn ht
   -- DocumentAnnotation is named by the descriptor iff it is redeclared
   have hdocin : DOCUMENT_ANNOTATION ∈ d'.map (·.name) ↔ docEntry ∈ pre := by
     constructor
@@ -164,7 +176,7 @@ theorem tsxml_roundtrip_core (ops : List TsOp) (h : UserOnlyNoDoc Gen.consts ops
   have hmem : ∀ e, e ∈ effective d' ↔
       e ∈ pre ∨ (∃ t ∈ userL ts, e = normT (renderType t)) ∨ e = docEntry := by
     intro e
-    rw [mem_effective d' hd'n e, List.mem_map]
+    rw [mem_effective d' hd'n hd's e, List.mem_map]
     constructor
     · rintro (⟨e0, he0, rfl⟩ | ⟨_, rfl⟩)
       · rcases List.mem_append.mp (hp.mem_iff.mp he0) with hpe | hde
@@ -222,7 +234,7 @@ theorem tsxml_roundtrip_core (ops : List TsOp) (h : UserOnlyNoDoc Gen.consts ops
   -- what is remembered as redeclared
   have hRmem : ∀ x, x ∈ R ↔ x ∈ pre.map (·.name) := by
     intro x
-    rw [← hR, List.mem_append, hasDoc_iff d' hd'n]
+    rw [← hR, List.mem_append, hasDoc_iff d' hd'n hd's]
     constructor
     · rintro (h1 | h1)
       · split at h1
@@ -294,12 +306,13 @@ theorem tsxml_roundtrip_core (ops : List TsOp) (h : UserOnlyNoDoc Gen.consts ops
 
 theorem tsxml_roundtrip_aux (ops : List TsOp) (h : UserOnlyNoDoc Gen.consts ops)
     (hns : NoShadow (ops.foldl (applyOp Gen.consts) Gen.builtinTS))
+    (hsn : StrippedNames Gen.consts (ops.foldl (applyOp Gen.consts) Gen.builtinTS))
     (d d' : Descriptor) (hd : toDescriptor Gen.consts (ops.foldl (applyOp Gen.consts) Gen.builtinTS) = .ok d)
     (hp : d'.Perm d) :
     ∃ ts', load Gen.consts d' = .ok ts' ∧
       SameXml (ops.foldl (applyOp Gen.consts) Gen.builtinTS) ts' ∧
       toDescriptor Gen.consts ts' = .ok (d.map trimT) := by
-  obtain ⟨ts', preOut, h1, h2, h3, h4, _⟩ := tsxml_roundtrip_core ops h hns d d' [] hd
+  obtain ⟨ts', preOut, h1, h2, h3, h4, _⟩ := tsxml_roundtrip_core ops h hns hsn d d' [] hd
     (fun e he => by cases he) (fun e he => by cases he) List.nodup_nil (by simpa using hp)
   refine ⟨ts', h1, h2, ?_⟩
   have : preOut = [] := by
@@ -311,6 +324,7 @@ theorem tsxml_roundtrip_aux (ops : List TsOp) (h : UserOnlyNoDoc Gen.consts ops)
     `Spec/TsXmlRoundTripCheck.lean`) and a redeclared DocumentAnnotation allowed among the redeclarations -/
 theorem tsxml_roundtrip_redeclared_aux (ops : List TsOp) (h : UserOnlyNoDoc Gen.consts ops)
     (hns : NoShadow (ops.foldl (applyOp Gen.consts) Gen.builtinTS))
+    (hsn : StrippedNames Gen.consts (ops.foldl (applyOp Gen.consts) Gen.builtinTS))
     (d d' pre : Descriptor) (hd : toDescriptor Gen.consts (ops.foldl (applyOp Gen.consts) Gen.builtinTS) = .ok d)
     (hpre : ∀ e ∈ pre, (Gen.consts.predefined.contains e.name = true ∧
       (find? Gen.builtinTSNoDoc e.name).map renderType = some e) ∨ e = docEntry)
@@ -321,18 +335,19 @@ theorem tsxml_roundtrip_redeclared_aux (ops : List TsOp) (h : UserOnlyNoDoc Gen.
       toDescriptor Gen.consts ts' = .ok (preOut ++ d.map trimT) ∧
       preOut.map (·.name) = sortStrs (pre.map (·.name)).eraseDups ∧
       ∀ e ∈ preOut, (find? Gen.builtinTSNoDoc e.name).map renderType = some e ∨ e = docEntry :=
-  tsxml_roundtrip_core ops h hns d d' pre hd hpre hnt hnd hp
+  tsxml_roundtrip_core ops h hns hsn d d' pre hd hpre hnt hnd hp
 
 /-- a descriptor that declares DocumentAnnotation itself (as the library defines it): the re-emitted descriptor
     starts with that declaration -/
 theorem tsxml_roundtrip_docann_aux (ops : List TsOp) (h : UserOnlyNoDoc Gen.consts ops)
     (hns : NoShadow (ops.foldl (applyOp Gen.consts) Gen.builtinTS))
+    (hsn : StrippedNames Gen.consts (ops.foldl (applyOp Gen.consts) Gen.builtinTS))
     (d d' : Descriptor) (hd : toDescriptor Gen.consts (ops.foldl (applyOp Gen.consts) Gen.builtinTS) = .ok d)
     (hp : d'.Perm (docEntry :: d)) :
     ∃ ts', load Gen.consts d' = .ok ts' ∧
       SameXml (ops.foldl (applyOp Gen.consts) Gen.builtinTS) ts' ∧
       toDescriptor Gen.consts ts' = .ok (docEntry :: d.map trimT) := by
-  obtain ⟨ts', preOut, h1, h2, h3, h4, h5⟩ := tsxml_roundtrip_core ops h hns d d' [docEntry] hd
+  obtain ⟨ts', preOut, h1, h2, h3, h4, h5⟩ := tsxml_roundtrip_core ops h hns hsn d d' [docEntry] hd
     (fun e he => Or.inr (List.mem_singleton.mp he))
     (fun e he => by rw [List.mem_singleton.mp he]; decide) (by simp) hp
   refine ⟨ts', h1, h2, ?_⟩
